@@ -55,6 +55,7 @@ def _contract_job(args):
         out['gen_s'] = round(getattr(run, 'gen_s', 0.0), 3)
         if run.vc is not None:
             out['n_paths'] = run.vc.n_paths
+            out['inlined'] = [list(x) for x in getattr(run.vc, 'inlined', [])]
         if run.error:
             out['error'] = run.error
         obs = [o for o in (run.vc.obligations if run.vc else []) if o.expect == 'unsat']
@@ -257,7 +258,8 @@ def main(argv=None):
         c = mod.CONTRACTS[out['idx']]
         fo = dict(function=out['target'], contract=out['cname'], sha256=out['sha256'], lineno=out.get('lineno'),
                   stmts=out['stats'], paths=out['n_paths'], obligations=0, discharged=0, backend_counts={}, solver_s=0.0,
-                  covers=out['covers'], covers_sat=out['covers_sat'], error=out['error'])
+                  covers=out['covers'], covers_sat=out['covers_sat'], error=out['error'],
+                  inlined_real_functions=out.get('inlined', []))
         if out.get('crash'):
             checker_errors.append('%s: %s' % (out['cname'], out['error']))
         elif out['error']:
